@@ -273,6 +273,13 @@ func forInnerLabels(f *forExpander) forStateFn {
 		if f.nextToken.IsPseudoOp() {
 			opLower := strings.ToLower(f.nextToken.val)
 			if opLower == "for" {
+				// the labels of this block are written in front of its first
+				// line; if that line is a nested FOR without a count variable
+				// they would be read as its count variable, so give it an
+				// unused one and they stay labels
+				if f.forDepth == 0 && len(f.labelBuf) == 0 && len(f.forLineLabelsToWrite) > 0 {
+					f.labelBuf = append(f.labelBuf, "__for_unnamed")
+				}
 				f.forDepth += 1
 				return forInnerEmitLabels
 			} else if opLower == "rof" {
